@@ -25,9 +25,9 @@ PROPS = {
         "assumptions": ["MetaVarEnv::insert / insert_multi obey the statements in prelude/env_ops.rs"],
     },
     "C04": {
-        "units": [("ops", MATCH), ("rule_core", MATCH + "|do_match"), ("rule", MATCH + "|match_and_add_label"), ("pattern", MATCH)],
+        "units": [("ops", MATCH), ("rule_core", MATCH + "|do_match"), ("rule", MATCH + "|match_and_add_label"), ("pattern", MATCH), "meta_var"],
         "kani": [],
-        "decided": [OPS_DECIDED_C04, "Pattern::match_node_with_env commits bindings only when the pattern matches (scratch Cow)"],
+        "decided": [OPS_DECIDED_C04, "MetaVarEnv::insert / insert_multi bind iff every earlier occurrence is structurally identical (named nodes pairwise for $$$), and change nothing otherwise; match_variable / match_multi_var decide exactly that", "Pattern::match_node_with_env commits bindings only when the pattern matches (scratch Cow)"],
         "not_decided": ["relational rules / ReferentRule / StopBy::find (closures capturing &mut env): frame assumed"],
         "assumptions": [],
     },
